@@ -49,6 +49,27 @@ def validate_traces(ck, traces, cfg="EvalStackTrace", tag="C09"):
     """all shards' traces through TLC; returns list of (trace path, rejected line number, event)"""
     rejected = []
     from concurrent.futures import ThreadPoolExecutor
+    # TLC holds a trace as one sequence and refuses sets of more than a million elements: long traces are cut at case boundaries
+    pieces = []
+    for tp in traces:
+        if os.path.getsize(tp) < 40_000_000:
+            pieces.append(tp)
+            continue
+        k, n, out = 0, 0, None
+        with open(tp) as f:
+            for l in f:
+                if out is None or (n >= 300000 and '"e":"reset"' in l):
+                    if out:
+                        out.close()
+                    k += 1
+                    n = 0
+                    pieces.append(f"{tp}.part{k}")
+                    out = open(pieces[-1], "w")
+                out.write(l)
+                n += 1
+        if out:
+            out.close()
+    traces = pieces
 
     def one(tp):
         if os.path.getsize(tp) == 0:
